@@ -77,6 +77,31 @@ def fanout_program(rng):
     return {'objects': gen.objects, 'roots': roots, 'start': 0, 'till': None}
 
 
+def pipe_program(rng):
+    """several overlapping transfers over congested pipes with inexact decimal limits and
+    volumes: whatever sums or scales them must do so in an order that is the same in every run"""
+    gen = Gen(rng, weights=FANOUT)
+    gen.program()       # only to initialise gen.objects
+    gen.objects['pipes'] = [rng.choice([0.9, 1.3, 2]), rng.choice([0.7, 3])]
+    decimals = [0.1, 0.2, 0.3, 0.7, 1.1, 1.3, 1.7, 2.3]
+    roots = []
+    for index in range(rng.randint(3, 8)):
+        steps = []
+        if rng.random() < 0.5:
+            steps.append({'op': 'wait', 'n': {'k': 'delay', 'd': rng.choice([0.1, 0.3, 0.5, 1])},
+                          'id': gen.next_id('s')})
+        for _ in range(rng.randint(1, 3)):
+            steps.append({'op': 'transfer', 'p': 0 if rng.random() < 0.8 else 1,
+                          'v': rng.choice([0.3, 0.7, 1, 1.9, 4.2]),
+                          'limit': rng.choice(decimals + [None]), 'id': gen.next_id('s')})
+            if rng.random() < 0.3:
+                steps.append({'op': 'setflag', 'f': rng.randrange(3), 'v': True,
+                              'id': gen.next_id('s')})
+        roots.append({'name': 'x%d' % index, 'steps': steps})
+    return {'objects': gen.objects, 'roots': roots, 'start': rng.choice([0, 0, 0.2]),
+            'till': None}
+
+
 D15_CANARY = {
     'objects': {}, 'start': 0, 'till': None,
     'roots': [{'name': 'r0', 'steps': [
@@ -99,6 +124,8 @@ def build(seed, index):
     rng = random.Random('%s/%s/c02' % (seed, index))
     if rng.random() < 0.4:
         return fanout_program(rng)
+    if rng.random() < 0.12:
+        return pipe_program(rng)
     # a few programs start at a date so large that small positive delays are lost in float
     # rounding (now + delay == now): the kernel then queues a *new* step of the same date
     gen = Gen(rng, weights=FANOUT, max_roots=6, max_steps=5,
